@@ -1518,9 +1518,12 @@ fn c11_spec(timeout_ms: u64) -> Arc<BenchSpec> {
             .script(16, vec![Op::Block(900)])
             .script(17, vec![sendc(2, 10, 0)]) // make the sub-model panic
             .script(18, vec![sched_self(SKind::Once, When::Rel(1), 10, 0)]) // panic at the next step
+            .script(19, vec![Op::UniQuery { port: 0, tag: 1, val: Val::C(3) }]) // query through a UniRequestor to the dropped mailbox
     };
-    let a = faults(NodeSpec::new("A", 4)).out(vec![to(2)]).out(vec![to(3)]).out(vec![to(1)]).req(vec![to(0)]);
-    let s = faults(NodeSpec::new("S", 4).parent(0)).out(vec![to(2)]).out(vec![to(3)]).out(vec![to(1)]).req(vec![to(1)]);
+    let mut a = faults(NodeSpec::new("A", 4)).out(vec![to(2)]).out(vec![to(3)]).out(vec![to(1)]).req(vec![to(0)]);
+    a.unis = vec![to(2)];
+    let mut s = faults(NodeSpec::new("S", 4).parent(0)).out(vec![to(2)]).out(vec![to(3)]).out(vec![to(1)]).req(vec![to(1)]);
+    s.unis = vec![tom(2, Mode::Map(1))];
     let g = NodeSpec::new("G", 1).placement(Placement::Dropped);
     let o = NodeSpec::new("O", 2).placement(Placement::Orphan);
     let mut spec = BenchSpec::new(vec![a, s, g, o]);
@@ -1541,6 +1544,8 @@ fn c11_scenarios(tier: &str, spec: &Arc<BenchSpec>, with_timeout: bool) -> Vec<S
         ("norecipient_model", pe(0, 13, 0)),
         ("norecipient_submodel", pe(1, 13, 0)),
         ("norecipient_source", ProcSrc { src: 1, tag: 1, val: 0 }),
+        ("norecipient_uni", pe(0, 19, 0)),
+        ("norecipient_uni_sub", pe(1, 19, 0)),
         ("message_loss", pe(0, 14, 0)),
         ("deadlock", pe(1, 15, 0)),
         ("panic_in_query", ProcQuery { node: 0, tag: 10, val: 0 }),
@@ -1676,6 +1681,22 @@ pub fn c11(tier: &str) -> Vec<Family> {
     // With a step timeout the single-threaded executor runs on a helper
     // thread, where the pick hook is not installed: no controlled yields.
     fams.push(Family::new("timeouts_st", TAGS_ERRORS, sc_t).uncontrolled(1, 1));
+    // The ordinary fault sequences on the single-threaded executor with a generous step timeout
+    // configured (the executor then runs on a helper thread): same classification and attribution.
+    let gspec = c11_spec(20_000);
+    let sc_g: Vec<Scenario> = c11_scenarios("quick", &gspec, false).into_iter().enumerate().filter(|(i, s)| s.label.ends_with("follow0") || (tier != "quick" && i % 3 == 0)).map(|(_, s)| s).collect();
+    fams.push(Family::new("fault_sequences_st_with_timeout", TAGS_ERRORS, sc_g).uncontrolled(1, 1));
+    // ... and init faults under the same configuration.
+    let mut sc_gi = vec![];
+    for (name, op) in [("panic", Op::Panic(PanicKind::Str)), ("norecipient", sendc(0, 1, 1))] {
+        let a = NodeSpec::new("A", 2).out(vec![to(2)]);
+        let s = NodeSpec::new("S", 2).parent(0).init(vec![op]).out(vec![to(2)]);
+        let g = NodeSpec::new("G", 1).placement(Placement::Dropped);
+        let mut sp = BenchSpec::new(vec![a, s, g]);
+        sp.timeout_ms = 20_000;
+        sc_gi.push(scn(format!("init_{}", name), &Arc::new(sp), vec![]));
+    }
+    fams.push(Family::new("init_faults_st_with_timeout", TAGS_ERRORS, sc_gi).uncontrolled(1, 1));
     let sc_t2 = c11_scenarios(tier, &tspec, true);
     let sc_t2: Vec<Scenario> = sc_t2.into_iter().take(n_t).collect();
     fams.push(Family::new("timeouts_mt", TAGS_ERRORS, sc_t2).uncontrolled(2, 1));
